@@ -63,6 +63,10 @@ inductive Ev where
   | rollbackTake (w : Nat)
   /-- `IndexWriter::new(.., directory_lock)?; *self = new_index_writer` in `rollback` -/
   | rollbackNew (w : Nat) (newOk : Bool)
+  /-- `rollback` of a code that builds the replacement writer *before* it takes the guard out of
+      `self` (`Gen.ROLLBACK_TAKES_GUARD_AFTER_NEW = 1`): the replacement could not be built, the
+      call returns `Err`, nothing happened to the guard -/
+  | rollbackFailedEarly (w : Nat)
   | drop (w : Nat)
   /-- `wait_merging_threads(self)` — consumes the writer -/
   | wait (w : Nat)
@@ -130,6 +134,8 @@ def step (s : St) : Ev → St × Out
         -- stays alive with `_directory_lock = None`
         ({ s with guards := s.guards.erase (.rolling w), held := false }, .ioErr)
     else (s, .stuck)
+  | .rollbackFailedEarly w =>
+    if !hasWriter s w || s.guards.contains (.rolling w) then (s, .stuck) else (s, .ioErr)
   | .drop w => dropWriter s w
   | .wait w => dropWriter s w
   | .kill w =>
